@@ -196,3 +196,9 @@ func VerifSessionStateCerts(ss *SessionState) (peer [][]byte, chains [][][]byte)
 	}
 	return
 }
+
+// VerifFinishedVerifyData returns the verify_data of the two Finished messages of the last
+// TLS <= 1.2 handshake on c (what a renegotiating peer has to put into renegotiation_info).
+func VerifFinishedVerifyData(c *Conn) (client, server []byte) {
+	return append([]byte(nil), c.clientFinished[:]...), append([]byte(nil), c.serverFinished[:]...)
+}
